@@ -358,10 +358,28 @@ def _check_driver(ck, inst, ssite, p, owner, init, ow, nch):
                          "the %s reported under %r is merged from the chunk statistics of another observable: names and values are matched in different orders" % (key_, nm_))
     if len(ups) == 2 * nobs and not vec:
         nc_t = num_term(argp(ups[0][5], 5))
+        from ..values import dim_size
+
+        def _rows(draw):
+            sh_ = getattr(draw[4], "shape", None)
+            return dim_size(sh_[0]) if sh_ else None
+
         for j, c in enumerate(ups):
             lb = num_term(argp(c[5], 5))
             la = num_term(argp(c[5], 2))
-            ck.check(lb == nc_t and lb is not None, "C13.R4", inst + ":chunk length = chain count #%d" % j, ssite, "a merge uses chunk length %r" % (lb,))
+            # the chunk merged after a draw is that draw's chain states: its length is the number of rows sample() returned
+            # (with a caller's initial_state that is the length of the initial_state, whatever num_chains was given)
+            rows = _rows(first if j < nobs else gen)
+            if lb is None or rows is None:
+                ck.undecided("C13.R4", inst + ":chunk length = chain count #%d" % j, ssite, "chunk length %r / rows of the draw %r not followed" % (lb, rows))
+            elif lb == rows:
+                ck.ok("C13.R4", inst + ":chunk length = chain count #%d" % j, ssite)
+            elif not (lb.syms() & rows.syms()) and lb.syms() and rows.syms():
+                ck.violation("C13.R4", inst + ":chunk length = chain count #%d" % j, ssite,
+                             "a draw of %r chain states is merged as a chunk of %r values: variance, standard error and the reported count are those of another number of samples" % (rows, lb),
+                             key="C13.R4|%s|chunk length is not the draw's rows" % owner)
+            else:
+                ck.check(True if lb == nc_t else None, "C13.R4", inst + ":chunk length = chain count #%d" % j, ssite, "a merge uses chunk length %r for a draw of %r rows" % (lb, rows))
             if j < nobs:
                 ck.check(la == T.ZERO, "C13.R4", inst + ":first merge starts from 0 #%d" % j, ssite, "the first merge of a run starts from length %r" % (la,))
         # all observables of one draw merge against the same accumulated length
@@ -384,7 +402,12 @@ def _check_driver(ck, inst, ssite, p, owner, init, ow, nch):
     if ct is not None:
         at = ct.single_atom()
         if at is not None and isinstance(at, T.App) and at.op == "accum":
-            nc_t = num_term(argp(ups[0][5], 5)) if ups else None
+            from ..values import dim_size as _ds
+
+            sh1_ = getattr(first[4], "shape", None)
+            nc_t = _ds(sh1_[0]) if sh1_ else None  # the rows of a draw: what one draw adds to the count
+            if nc_t is None:
+                nc_t = num_term(argp(ups[0][5], 5)) if ups else None
             okc = (at.args[2] == nc_t and at.args[3] == nc_t)
         elif ups and num_term(argp(ups[0][5], 5)) is not None and ct == 2 * num_term(argp(ups[0][5], 5)):
             okc = True  # carried in an object's attribute instead of a local: one chain count per analysed draw (first + generic iteration)
